@@ -326,14 +326,26 @@ pub fn gen_groups(d: &Data, r: &mut Rng, max_groups: usize, allow_wild: bool) ->
     let n = r.range(1, max_groups);
     let mut names: Vec<&str> = NAMES.to_vec();
     r.shuffle(&mut names);
-    (0..n)
+    let mut groups: Vec<Group> = (0..n)
         .map(|i| {
             let lo = if r.chance(1, 10) { 0 } else { 1 };
             let nr = r.range(lo, 4);
             let rules = (0..nr).map(|_| safe_rule(d, r, allow_wild)).collect();
             Group { name: names[i].to_string(), rule: rules, description: gen_description(r) }
         })
-        .collect()
+        .collect();
+    if n >= 2 && r.chance(1, 6) {
+        // two groups may carry the same name (also in another case): they stay two groups
+        let i = r.below(n);
+        let j = (i + 1 + r.below(n - 1)) % n;
+        let name = groups[i].name.clone();
+        groups[j].name = match r.below(3) {
+            0 => name.to_uppercase(),
+            1 => name.to_lowercase(),
+            _ => name,
+        };
+    }
+    groups
 }
 
 pub fn gen_words(d: &Data, r: &mut Rng) -> Vec<String> {
